@@ -20,11 +20,12 @@ PROP = dict(
                 "requests with different answers have different keys [no_sharing]; a replacement empties the cache [update_clears]; a disabled cache "
                 "is bypassed. Which option fields the key carries, through which conversion literal, which fields the engine reads, that engine and key "
                 "normalise the query alike, that UpdateDatabase invalidates and that Put mirrors Get are regenerated from the Go source on every run and "
-                "judged by `decide` theorems [key_covers_reads, code_shape]. The statement is false for options containing NaN/Inf (json.Marshal fails, the "
-                "fallback key drops every option but the limit): proved as a witness theorem and reported by the monitor as a known finding."),
-    level_note=("Assumed, not proved: SHA-256 collision-freedom and injectivity of encoding/json on the modelled key view (one hypothesis `enc` injective); "
+                "judged by `decide` theorems [key_covers_reads, code_shape]. Options containing NaN/Inf (json.Marshal fails) are keyed by the Go-syntax text "
+                "of the whole key struct and are covered by the same theorems; what the earlier query+limit fallback did is kept as a witness theorem "
+                "[old_fallback_breaks_transparency] and as the always-on monitor class nan-key-fallback."),
+    level_note=("Assumed, not proved: SHA-256 collision-freedom, injectivity of encoding/json on the modelled JSON view and of fmt's %#v on the modelled Go-syntax view (one hypothesis `enc` injective); "
                 "`EngineReadsOnly` (the answer depends on the options only through the selected fields, up to the omitempty identification nil≡empty, 0≡absent, "
-                "-0.0≡0.0, invalid UTF-8≡U+FFFD) - backed by the translator's syntactic reads analysis (conservative name-based call graph, escape checks) "
+                "-0.0≡0.0, every invalid UTF-8 byte ≡ the \\ufffd escape, all NaNs alike) - backed by the translator's syntactic reads analysis (conservative name-based call graph, escape checks) "
                 "and by the monitor; `EngineNormalises` - backed by the regenerated fact that SearchUniversal's first use of the query is "
                 "query = ToLower(TrimSpace(query)). Trusted: Lean kernel, axioms propext/Quot.sound, the translator, the harness and its ageing hook, the "
                 "correspondence (bounded by its generators), engine determinism (checked on every request by a second uncached search). Concurrency is C11's subject."),
@@ -37,14 +38,14 @@ PROP = dict(
     assumptions=["enc injective: SHA-256 collision-free, JSON text injective on the key view, fallback keys disjoint from hashed keys",
                  "EngineReadsOnly engineReads answer (syntactic reads analysis + omitempty identification respected by the engine)",
                  "EngineNormalises answer (regenerated fact engineNormalisesQuery)",
-                 "FiniteOpts for transparent / no_sharing (NaN/Inf: known finding K03, witness theorem nan_fallback_breaks_transparency)",
+                 "no finiteness hypothesis: NaN/Inf requests are keyed by the %#v text (all NaNs print as NaN; the engine treats them alike)",
                  "the engine is deterministic (C02); checked by a repeated uncached search at every request",
                  "single-threaded histories (C11 covers concurrency); the LRU's own laws are C12's"],
 )
 
 THEOREMS = ["Wtf.C05." + t for t in (
     "key_covers_reads", "code_shape", "proj_sound", "query_norm_sound", "finite_marshalOK", "no_sharing", "inv", "transparent",
-    "update_clears", "disabled_bypasses", "switches_agree", "nan_fallback_breaks_transparency")]
+    "update_clears", "disabled_bypasses", "switches_agree", "old_fallback_breaks_transparency")]
 
 ASSERTIONS = ["cachekey:optionFields", "cachekey:keyFields", "cachekey:conv:SearchWithOptionsAndCache", "cachekey:conv:convertToCacheOptions",
               "cachekey:convertToCacheOptions:body", "cachekey:reads", "cachekey:SearchUniversal:query", "cachekey:generateCacheKey",
@@ -85,7 +86,7 @@ def fact_obligations(ctx):
         if b == "engineNormalisesQuery" and not f.get(b):
             extra = "; first use of the query in SearchUniversal: %s" % f.get("engineFirstQueryUse", "?")
         ctx.oblige("fact:" + b, "translator", bool(f.get(b)), "%s = %s%s" % (b, f.get(b), extra))
-    ctx.cov["facts"] = {k: f.get(k) for k in ["engineReads", "convCached", "convMonitored", "fallbackFields"] + BOOL_FACTS}
+    ctx.cov["facts"] = {k: f.get(k) for k in ["engineReads", "convCached", "convMonitored", "fallbackMode"] + BOOL_FACTS}
     return missing_all, not (f.get("engineNormalisesQuery") and f.get("keyNormalisesQuery"))
 
 
@@ -203,7 +204,8 @@ def run(ctx):
         ctx.cov["samples"].insert(0, dict(domain="cachelayer", note="cmd lines omitted; search output = answer id, d-hits, d-misses, size, hits, misses, evictions",
                                           cmd_lines_in_history=sum(1 for o in r.ops[idx] if o.startswith("cmd ")),
                                           history=[dict(op=core.pretty(o), impl=i) for o, i in ops[:14]]))
-    # options with NaN / Inf floats: separate stream, so that the Marshal-error fallback is reported separately
+    # options with NaN / Inf floats (json.Marshal fails, the Go-syntax text is hashed): separate stream; a wrong answer
+    # there is reported under its own class nan-key-fallback
     r = ctx.correspond("cachelayer", 400 if quick else 1600, name="cachelayer-nan", args={"nan": "1"}, nontrivial=nontrivial_nan, seed_offset=11,
                        on_mismatch=remin(ctx, "cachelayer"))
     shrink_hits(ctx, r, "cachelayer")
